@@ -64,7 +64,9 @@ theorem invR_deliverReset {s : Stream} (h : Inv s) (k : InvR s) (i : Nat) : InvR
   cases hst : s.rcv.st <;> simp only
   · split
     · rw [h8]; intro x; simp [noteErr] at x
-    · intro _; exact ⟨fun x => by simp at x, fun _ _ => by simp⟩
+    · split
+      · rw [h8]; intro x; simp [noteErr] at x
+      · intro _; exact ⟨fun x => by simp at x, fun _ _ => by simp⟩
   · split
     · rw [h8]; intro x; simp [noteErr] at x
     · intro _; exact ⟨fun x => by simp at x, fun _ _ => by simp⟩
